@@ -635,6 +635,11 @@ class Resolver:
                 if k is not None:
                     kt = kt | self.type_of(k, ctx)
                     vt = vt | self.type_of(v, ctx)
+                else:
+                    for a in self.type_of(v, ctx):
+                        if a[0] == "dict":
+                            kt = kt | a[1]
+                            vt = vt | a[2]
             return T(("dict", kt, vt))
         if isinstance(node, ast.DictComp):
             return T(("dict", self.type_of(node.key, ctx), self.type_of(node.value, ctx)))
